@@ -181,12 +181,21 @@ def run_case(rng, tier, case):
                     case.reject('optimize raised %s: %s' % (type(e).__name__, str(e)[:150]))
         else:
             spec = gen.gen_mixed_portfolio(rng, grid_kw={'steps': (4, 24)}, n_assets=(2, 5))
+            gap = None
+            if mode == 'split' and rng.random() < 0.2:
+                # an interval in which no variable is mapped although the order book keeps its variables there (see C14)
+                from .c14 import gen_gap_case
+                gap = gen_gap_case(rng)
+                if gap is not None:
+                    spec = gap[0]
             if mode == 'portfolio_infeasible':
                 # a must-run demand without any supplier at a fresh node
                 spec['assets'].append({'type': 'SimpleContract', 'name': 'must_run', 'nodes': ['island'], 'min_cap': 1., 'max_cap': 2.})
             mip = gen.is_mip(spec)
             solver = gen.pick(rng, MIP_SOLVERS if mip else LP_SOLVERS)
             split = gen.pick(rng, ['d', '12h', '6h']) if (mode == 'split' and not spec['grid']['freq'].endswith('d')) else None
+            if gap is not None:
+                split = 'd'
             for t in gen.asset_types(spec):
                 case.feature('type:' + t)
             case.key = env.spec_key(gen.strip_private(spec)); case.sample = dict(gen.abbreviate(spec), solver=solver, split=split); case.spec = spec
@@ -202,6 +211,8 @@ def run_case(rng, tier, case):
             elif split and r.solved:
                 # concatenation: x is the concatenation and value the sum of the recorded per-interval results
                 evs = [e for e in rec.of('optimize') if e.ret is not None and not isinstance(e.ret, str)]
+                case.check('split.every_interval_with_variables_is_optimised', len(evs) == sum(1 for o in r.op.ops if len(o.c) > 0), intervals=len(r.op.ops), optimised=len(evs),
+                           n_x=len(np.asarray(r.res.x)), n_vars=int(sum(len(o.c) for o in r.op.ops)))
                 if len(evs) == len(r.op.ops):
                     xcat = np.concatenate([np.asarray(e.ret.x, float) for e in evs]) if evs else np.zeros(0)
                     case.check('split.x_is_concatenation', xcat.shape == np.asarray(r.res.x).shape and np.array_equal(xcat, np.asarray(r.res.x, float)),
